@@ -54,15 +54,28 @@ def impl(cls_index, pc, maxlen, data, kind, uid_len=17):
         m.data_set = None
     elif kind == 'bytes':
         m.data_set = data
-    elif kind == 'bytesio':
-        m.data_set = io.BytesIO(data)
     else:
-        f = tempfile.TemporaryFile()
-        f.write(data)
-        f.seek(0)
+        # a file-like data set is sent from where it is positioned (storage_scu hands over a file positioned behind its
+        # preamble and meta header): the bytes before that position are not part of the data set
+        prefix = bytes((i * 3 + 1) % 256 for i in range((len(data) * 7 + uid_len) % 211 if (len(data) + cls_index) % 3 else 0))
+        f = io.BytesIO() if kind == 'bytesio' else tempfile.TemporaryFile()
+        f.write(prefix + data)
+        f.seek(len(prefix))
         m.data_set = f
-    pdus = msgs.send_via_association(m, pc, maxlen)
-    return pdus, msgs.encoded_command_set(m)
+    cmd = []
+
+    def reuse(msg):
+        # the application goes on with the message object before the provider thread has sent it: what goes out must be
+        # the message as it was when send() was called
+        cmd.append(msgs.encoded_command_set(msg))
+        if (len(data or b'') + pc + cls_index) % 2:
+            msg.data_set = None if (pc % 3 == 0 or data is None) else b'LATER' * 7
+            try:
+                msg.message_id = 4242
+            except Exception:  # pylint: disable=broad-except
+                pass
+    pdus = msgs.send_via_association(m, pc, maxlen, after=reuse)
+    return pdus, cmd[0]
 
 
 def frag_text(pdus):
